@@ -99,6 +99,24 @@ PROPS = {
                        "thread in order ‖ strings in order), record k points at the k-th name's string; counterexample theorem for the repaired indexing. "
                        "The driver compares model and implementation byte for byte and decodes the implementation's stream against the named threads.",
     },
+    "C01": {
+        "rule": "real dumps of generated live targets (vtarget: 1 … 64 threads blocked in a raw syscall with any mix of named / unnamed / non-ASCII names, "
+                "stack-pointer page offsets, pattern regions, 0 … 40 open descriptors, synthetic linker data) under random option combinations "
+                "(crash context with register values in / outside mappings, size limit, sanitize, skip-unreferenced, app memory, user mappings, "
+                "direct auxv) into destinations with pre-existing content; the Lean decoder collects every object of the real image and evaluates the "
+                "structural predicate. Distinct = distinct (#threads, #streams, option vector).",
+        "expected_tags": ["cfg.crash", "cfg.limit", "cfg.sanitize", "cfg.skip", "cfg.app", "cfg.umap", "cfg.auxv", "threads.gt20", "stream.3", "stream.24", "stream.12"],
+        "extra_theorems": ["plan_entries_fit", "plan_types_distinct", "consts_agree"],
+        "trusted_base": ["the writers fill array slots with indices below the array size (thread list, module list, memory list: `enumerate()` over the list "
+                         "that sized the array; thread names: C15_layout; directory: plan_entries_fit)",
+                         "Linux/x86_64 only; src/mac and src/windows writers cannot be built or run here"],
+        "assumptions": ["image below 4 GiB", "bytes left by a best-effort writer that failed half-way are unreferenced garbage (allowed by the statement)"],
+        "explanation": "C01 theorems: along every valid builder history the returned locations tile the image (pairwise disjoint, inside, in allocation order) and "
+                       "every returned location is the extent of the object just created; plan obligations re-proved against the regenerated source: "
+                       "published entries ≤ directory size, stream types pairwise distinct. The decidable predicate wfImage (header, directory, unique "
+                       "stream types, sizes implied by counts, every stored RVA resolves to an object inside the image, no overlap except the two "
+                       "intentional aliases) is evaluated on every real image.",
+    },
 }
 
 NOT_APPLICABLE = {}
